@@ -171,6 +171,29 @@ func lineCount(path string) int {
 	return n
 }
 
+var fileLineCache sync.Map
+
+func fileLines(path string) [][]byte {
+	if v, ok := fileLineCache.Load(path); ok {
+		return v.([][]byte)
+	}
+	b, _ := os.ReadFile(path)
+	l := bytes.Split(b, []byte{'\n'})
+	fileLineCache.Store(path, l)
+	return l
+}
+
+func clipLine(l []byte, col int) string {
+	if col < 0 || col > len(l) {
+		return ""
+	}
+	e := col + 24
+	if e > len(l) {
+		e = len(l)
+	}
+	return string(l[col:e])
+}
+
 type violation struct {
 	class, msg string
 	prog       *seqgen.Program
@@ -278,6 +301,56 @@ func checkProgram(env *jbuild.Env, pool *simpool.Pool, p *seqgen.Program, dir st
 		}
 		for l := range byLine {
 			sort.Slice(byLine[l], func(a, b int) bool { return byLine[l][a].genCol < byLine[l][b].genCol })
+		}
+		// JavaScript chunks (prelude, .inc.js): the recorded generated position must be where that code actually
+		// is. Top-level prelude names ($-prefixed) survive minification, so wherever the original position holds
+		// such an identifier the generated position must hold the same one.
+		identAt := func(line []byte, col int) string {
+			if col < 0 || col >= len(line) {
+				return ""
+			}
+			isID := func(b byte) bool {
+				return b == '$' || b == '_' || (b >= '0' && b <= '9') || (b >= 'a' && b <= 'z') || (b >= 'A' && b <= 'Z')
+			}
+			if col > 0 && isID(line[col-1]) {
+				return "" // not at the start of a token
+			}
+			e := col
+			for e < len(line) && isID(line[e]) {
+				e++
+			}
+			return string(line[col:e])
+		}
+		jsBad := 0
+		for _, m := range maps {
+			if !m.hasSrc || !strings.HasSuffix(sm.Sources[m.src], ".js") || m.genLine >= len(jsLines) {
+				continue
+			}
+			path, ok := resolveSource(sm.Sources[m.src], env.Repo)
+			if !ok {
+				continue
+			}
+			ol := fileLines(path)
+			if m.origLine >= len(ol) {
+				continue
+			}
+			want := identAt(ol[m.origLine], m.origCol)
+			if len(want) < 3 || want[0] != '$' {
+				continue
+			}
+			add("js_chunk_identifier_mappings_checked", 1)
+			gc := m.genCol
+			for gl := jsLines[m.genLine]; gc < len(gl) && (gl[gc] == ' ' || gl[gc] == '\t'); gc++ {
+				// a mapping may start at the indentation in front of the token it describes
+			}
+			// esbuild repeats the previous mapping at the start of every generated line, so a mapping need not sit on
+			// the token it names; only a generated position that itself holds a $-identifier is comparable
+			if got := identAt(jsLines[m.genLine], gc); len(got) >= 3 && got[0] == '$' && got != want {
+				jsBad++
+				if jsBad == 1 {
+					fail(violation{class: "js-chunk-mapping-misplaced", msg: fmt.Sprintf("%s build: the mapping for %s:%d:%d (identifier %s) points at generated %d:%d, where the code reads %q", variant.name, sm.Sources[m.src], m.origLine+1, m.origCol, want, m.genLine+1, m.genCol, clipLine(jsLines[m.genLine], m.genCol)), prog: p, variant: variant.name})
+				}
+			}
 		}
 		// stack frames under suspension tapes
 		runs := []simpool.Run{{Tape: []int{}}}
